@@ -61,6 +61,10 @@ func directedBehaviours() []*behaviour {
 			// first content (revoke of invite 7) applies and whose second names nothing
 			{Act: "AddBatchTail", R: "r1", I: 6, J: 9, Kind: "unaccepted", A: "o", Via: "response",
 				Cs: []content{c("InviteRevoke", "", "", 7, ""), c("RequestDecline", "", "", 0, "")}},
+			{Act: "BuildTampered", R: "r2", K: 4, M: 9, Kind: "byte", A: "o"},       // served records with altered bytes in place 4
+			{Act: "BuildTampered", R: "r3", K: 7, M: 9, Kind: "acceptorSig", A: "o"}, // any-store rows, partial mode
+			{Act: "BuildTampered", R: "r1", K: 9, M: 9, Kind: "id", A: "o"},          // other spellings of the id
+			{Act: "BuildTampered", R: "r1", K: 1, M: 5, Kind: "byte", A: "o"},        // the root
 			{Act: "Bootstrap", R: "r2", P: "r1"},
 			accE("unknownField", "o", c("InviteRevoke", "", "", 7, ""), c("ReadKeyChange", "", "", 0, "")), // 10
 			acc("b", c("RequestRemove", "", "", 0, "")),                             // 11
